@@ -50,6 +50,15 @@ type Embedder struct {
 	Extra string
 }
 
+// Defined types over the basic kinds.
+type (
+	NInt     int
+	NInt64   int64
+	NUint8   uint8
+	NFloat64 float64
+	NBool    bool
+)
+
 // Meta and Page: Page promotes Meta's fields and methods through an embedded
 // pointer that is nil.
 type Meta struct{ Description string }
@@ -227,6 +236,20 @@ func Build(v sb.V) interface{} {
 		return BoolStringer{v.S, v.B}
 	case "nan":
 		return math.NaN()
+	case "named:int":
+		return NInt(int(v.N))
+	case "named:int64":
+		return NInt64(int64(v.N))
+	case "named:uint8":
+		return NUint8(uint8(v.N))
+	case "named:float64":
+		return NFloat64(v.N)
+	case "named:str":
+		return KStr(v.S)
+	case "named:bool":
+		return NBool(v.B)
+	case "uintptr":
+		return uintptr(v.N)
 	case "embednil":
 		return Page{Title: v.S}
 	case "cyclicmap":
